@@ -190,6 +190,35 @@ mutual
             | pair _ _ => simp at h
             | list _ _ => simp at h
             | map _ _ _ _ _ _ => simp at h
+            | left _ _ => simp at h
+            | right _ _ => simp at h
+            | set _ _ => simp at h
+        | ifLeft bt bf =>
+          simp only [exec, hs, bind, Except.bind] at h
+          cases hpop : s.pop1 with
+          | error e => simp [hpop] at h
+          | ok rs =>
+            obtain ⟨o, s1⟩ := rs
+            simp only [hpop] at h
+            cases o with
+            | left v rt =>
+              have g1 : Good s (s1.push v) := by
+                refine Good.popPush [.left v rt] [v] [] true (pop1_spec hpop) (push_perm _ _) rfl (by simp [push_typed]) rfl ?_
+                vals_tac
+              exact g1.trans (execSeq_good ok f bt (s1.push v) s' h)
+            | right lt v =>
+              have g1 : Good s (s1.push v) := by
+                refine Good.popPush [.right lt v] [v] [] true (pop1_spec hpop) (push_perm _ _) rfl (by simp [push_typed]) rfl ?_
+                vals_tac
+              exact g1.trans (execSeq_good ok f bf (s1.push v) s' h)
+            | atom _ => simp at h
+            | ticket _ _ _ _ => simp at h
+            | pair _ _ => simp at h
+            | list _ _ => simp at h
+            | map _ _ _ _ _ _ => simp at h
+            | none _ => simp at h
+            | some _ => simp at h
+            | set _ _ => simp at h
         | iter body =>
           simp only [exec, hs, bind, Except.bind] at h
           cases hpop : s.pop1 with
@@ -315,11 +344,27 @@ mutual
                   intro _ hc
                   exact ⟨hc, fun k => by simp [mintedSum], fun hz => hz⟩
                 · cases h
+            | set t xs =>
+              simp only at h
+              split at h
+              · simp only [pure, Except.pure, Except.ok.injEq] at h
+                subst h
+                refine Good.popPush [.set t xs] [.set t xs] [] true
+                  (pop1_spec hpop) (push_perm _ _) rfl (by simp [push_typed]) rfl ?_
+                intro _ hc
+                exact ⟨hc, fun k => by simp [mintedSum], fun hz => hz⟩
+              · cases h
             | atom _ => simp at h
             | ticket _ _ _ _ => simp at h
             | pair _ _ => simp at h
             | none _ => simp at h
             | some _ => simp at h
+            | left _ _ => simp at h
+            | right _ _ => simp at h
+        | left _ => simp [simple] at hs
+        | right _ => simp [simple] at hs
+        | emptySet _ => simp [simple] at hs
+        | mem => simp [simple] at hs
         | ticket => simp [simple] at hs
         | readTicket => simp [simple] at hs
         | splitTicket => simp [simple] at hs
